@@ -58,5 +58,29 @@ def handle : Handler := fun cmd j =>
       | .ok l => Json.arr (l.map fun e => Json.arr #[.str e.name, toJson e.rest.length]).toArray
       | .error _ => Json.null
     pure (Json.mkObj [("model", model), ("order", order), ("spec", verdictJson (Spec.collapse sources name))])
+  | "c43.history" => do
+    -- a manager over time: {"sources": [...], "ops": [{"op":"collapse","name":n} | {"op":"add","source":[...]} | {"op":"reload"}]}
+    let srcsJ ← getArr j "sources"
+    let sources ← srcsJ.mapM parseSource
+    let opsJ ← getArr j "ops"
+    let ops ← opsJ.mapM fun o => do
+      let k ← getStr o "op"
+      match k with
+      | "collapse" => (getStr o "name").map MOp.collapse
+      | "add" => ((o.getObjVal? "source").toOption >>= parseSource).map MOp.addSource
+      | "reload" => some MOp.reload
+      | _ => none
+    let rec go (m : Mgr) : List MOp → List Json
+      | [] => []
+      | op :: rest =>
+        let r := m.step op
+        let out := match op, r.2 with
+          | .collapse n, some (.ok cfg) =>
+            Json.mkObj [("model", Json.mkObj [("ok", cfgJson cfg)]), ("spec", verdictJson (Spec.collapse m.sources n))]
+          | .collapse n, some (.error e) =>
+            Json.mkObj [("model", errJson e), ("spec", verdictJson (Spec.collapse m.sources n))]
+          | _, _ => Json.str "ok"
+        out :: go r.1 rest
+    pure (Json.arr (go (Mgr.init sources) ops).toArray)
   | _ => none
 end Pkgcore.Driver.C43
